@@ -16,8 +16,9 @@ from .c09 import IMPORTS
 from .c10 import limit_parts
 
 PROP = "C19"
-THEOREMS = []
-FACT_LEMMAS = []
+THEOREMS = ['C19_condition', 'C19_path', 'C19_part', 'C19_part_specs', 'C19_rule', 'C19_rule_keyerror_names_field', 'C19_condition_any_depth']
+FACT_LEMMAS = ['C19Proof.T_tables_ok', 'C19Proof.T_key_eq', 'C19Proof.T_index_eq', 'C19Proof.T_value_eq', 'C19Proof.X_suffixes_ok']
+DEPENDS = ['Py.v', 'Lang.v', 'Defs.v', 'Cond.v', 'Dsl.v', 'Check.v', 'DocSem.v', 'Inst.v', 'Gen/TablesGen.v', 'Gen/CallablesGen.v', 'Gen/SpecGen.v', 'Path.v', 'Cast.v', 'Str.v', 'SpecDefs.v', 'RuleDefs.v', 'Rule.v', 'Spec.v', 'SpecIO.v', 'Descr.v', 'Eq.v', 'RunSpec.v', 'SpecSpell.v', 'Proofs/Tie.v', 'Proofs/PyFacts.v', 'Proofs/C01Proof.v', 'Proofs/C02Proof.v', 'Proofs/RuleProof.v', 'Proofs/C03Proof.v', 'Proofs/C04Proof.v', 'RuleSpec.v', 'RuleTerms.v', 'PathSpec.v', 'RunRule.v', 'Run.v', 'Proofs/C19Proof.v', 'Properties/C19.v']
 ASSUMPTIONS = ["the parser models fail the way the Python operations fail on arbitrary values (validated by correspondence)"]
 
 ALLOWED = {"MalformedConditionLikeSpec", "MalformedDataPathSpec", "MalformedRuleSpec", "MalformedContainerItemSpec",
